@@ -305,8 +305,13 @@ def regex_nfa(pattern, flags, alphabet):
                         n.add(cur, None, end)
                     cur = end
             elif op == 'AT':
-                # \b: handled by the caller for whole-token patterns (keywords); inside codec regexes it does not occur
+                # \b / \B: a marked edge, resolved into ordinary states by resolve_boundaries (last-char class + constraint on the next char)
+                if str(av) == 'AT_NON_BOUNDARY':
+                    raise FstError('\\B is not modelled (CPython treats the empty string specially)')
                 if str(av) in ('AT_BOUNDARY',):
+                    nxt = n.new()
+                    n.add(cur, ('\\b', str(av) == 'AT_BOUNDARY'), nxt)
+                    cur = nxt
                     continue
                 if str(av) in ('AT_END', 'AT_END_STRING', 'AT_BEGINNING', 'AT_BEGINNING_STRING'):
                     raise FstError('anchors inside a token pattern')
@@ -320,8 +325,84 @@ def regex_nfa(pattern, flags, alphabet):
     return n
 
 
-def regex_dfa(pattern, flags, alphabet):
-    return regex_nfa(pattern, flags, alphabet).to_dfa(alphabet)
+def resolve_boundaries(n, alphabet, prefix=False):
+    """NFA without \\b edges accepting the same strings (prefix=False: whole-string matches at position 0, i.e. fullmatch;
+    prefix=True: strings w such that the pattern matches at position 0 of w, the rest of w arbitrary - what re.match decides).
+    States are (q, last, need): last = the previous character was a word character (start of string counts as non-word),
+    need = None | True (the next character must be a word character) | False (the next one must be a non-word character or the end)."""
+    word = re.compile(r'\w')
+    isw = {ch: bool(word.fullmatch(ch)) for ch in alphabet}
+    marks = {}
+    plain = {}
+    for (p, ch), qs in n.trans.items():
+        if isinstance(ch, tuple):
+            marks.setdefault(p, []).extend((ch[1], q) for q in qs)
+        else:
+            plain.setdefault(p, []).extend((ch, q) for q in qs)
+    out = Nfa()
+    out.full_finals = set()      # finals reached by a match that ends exactly at the end of the string (the others are prefix-match sinks)
+    index = {}
+    SINK = 'sink'
+
+    def st(k):
+        if k not in index:
+            index[k] = out.new()
+        return index[k]
+    start = (n.start, False, None)
+    out.start = st(start)
+    work = [start]
+    seen = {start}
+
+    def push(k):
+        if k not in seen:
+            seen.add(k)
+            work.append(k)
+    while work:
+        k = work.pop()
+        q, last, need = k
+        i = st(k)
+        if q == SINK:
+            for ch in alphabet:
+                if need is None or need == isw[ch]:
+                    k2 = (SINK, False, None)
+                    out.add(i, ch, st(k2))
+                    push(k2)
+            if need in (None, False):
+                out.finals.add(i)
+            continue
+        if q in n.finals and need in (None, False):
+            out.finals.add(i)
+            out.full_finals.add(i)
+        if q in n.finals and prefix:
+            k2 = (SINK, last, need)
+            out.add(i, None, st(k2))
+            push(k2)
+        for q2 in n.eps.get(q, ()):
+            k2 = (q2, last, need)
+            out.add(i, None, st(k2))
+            push(k2)
+        for is_b, q2 in marks.get(q, ()):
+            want = (not last) if is_b else last
+            if need is not None and need != want:
+                continue
+            k2 = (q2, last, want)
+            out.add(i, None, st(k2))
+            push(k2)
+        for ch, q2 in plain.get(q, ()):
+            if need is not None and need != isw[ch]:
+                continue
+            k2 = (q2, isw[ch], None)
+            out.add(i, ch, st(k2))
+            push(k2)
+    return out
+
+
+def regex_dfa(pattern, flags, alphabet, prefix=False):
+    """DFA of re.fullmatch(pattern, w) (prefix=True: of re.match(pattern, w)) over the alphabet; \\b and \\B are exact"""
+    n = regex_nfa(pattern, flags, alphabet)
+    if prefix or any(isinstance(ch, tuple) for (_p, ch) in n.trans):
+        n = resolve_boundaries(n, alphabet, prefix)
+    return n.to_dfa(alphabet)
 
 
 def check_minterms(alphabet, patterns, constants, universe=None):
